@@ -139,11 +139,11 @@ theorem stepTh_conserve (m : Mem) (th : Thread) (a : Task) :
         cases list with
         | nil =>
           simp only
-          split <;> simp_all [Thread.finish, Thread.goto, own, held, memCount, List.count_cons, List.count_append] <;> omega
+          split <;> simp_all [Thread.finish, Thread.goto, own, held, memCount, List.count_cons] <;> omega
         | cons t l => simp [Thread.goto, own, held, memCount, List.count_cons, List.count_append] at this ⊢; omega
       | some c =>
         cases list with
-        | nil => simp [Thread.goto, own, held, memCount, List.count_cons, List.count_append] at this ⊢; omega
+        | nil => simp [Thread.goto, own, held, memCount, List.count_cons] at this ⊢; omega
         | cons t l => simp [Thread.goto, own, held, memCount, List.count_cons, List.count_append] at this ⊢; omega
     · simp [Thread.goto, own, held]
   | up ring d =>
